@@ -65,6 +65,16 @@ class Custom(Exception):
 
 EXCS = [ValueError, TypeError, KeyError, AttributeError, RuntimeError, AssertionError, StopIteration,
         Custom, UnicodeError, ZeroDivisionError, LookupError, OSError]
+
+
+def _kwarg_text_typeerror(_msg):
+    """A genuine TypeError raised *inside* a printer whose text looks like the interpreter's complaint
+    about the printer's own signature (e.g. the printer forwarded the keyword to a helper that lacks it)."""
+    return TypeError("helper() got an unexpected keyword argument 'trailing_comment'")
+
+
+_kwarg_text_typeerror.__name__ = 'TypeError-with-unexpected-keyword-text'
+EXCS.append(_kwarg_text_typeerror)
 EXC_BY_NAME = {e.__name__: e for e in EXCS}
 
 STATE = {'i': -1, 'plan': {}, 'fired': 0}
@@ -137,6 +147,10 @@ def ensure_registered():
             docs.append(pretty_python_value(c, ctx.nested_call()))
         docs.append(')')
         return concat(docs)
+    # functions made by exec() in a namespace without __name__ (as dataclasses / attrs generate methods)
+    # have no module: two of the printers are of that kind
+    p_u3.__module__ = None
+    p_u2.__module__ = None
     _reg.append(1)
     registry.get().snap()
 
